@@ -91,6 +91,7 @@ ObsOutcome ==
 Expected == IF Modelled THEN Predict(Hdr.site, Hdr.kind).out ELSE "absorbed"
 OutcomeAgrees ==
   (ended /\ E2E) => \/ Expected = "absorbed" /\ ObsOutcome = "ok"
+                    \/ Expected = "absorbed" /\ Hdr.skipok = 1 /\ target = "skipped" /\ pipe = "none" /\ ~hang
                     \/ Expected = ObsOutcome
 LeavesAgree ==
   (ended /\ Modelled) =>
